@@ -3,9 +3,13 @@
 Events: return value / exception / logical step count of every pull, receive_reward and the final get_last_point.
 Oracle: no exception; a list/tuple of d finite reals inside the *user's* box; <= STEP_LIMIT PyXAB function entries
 per call (a hang is decided on logical steps, never on wall-clock time)."""
+import copy
+
+import numpy as np
+
 from .. import common as C
 from .. import gen
-from ..driver import Monitor, drive, result_of
+from ..driver import Monitor, crash_info, drive, result_of
 
 PROP = "C01"
 STEP_LIMIT = 10 ** 7
@@ -20,11 +24,52 @@ ASSUMPTIONS = [
     "a hang is a call exceeding 1e7 PyXAB function entries (largest legitimate call observed is reported)",
     "rewards are floats of the listed families, incl. magnitudes up to 1e307; not every finite float",
 ]
-FLOOR = {"pulls_checked": {"quick": 20000, "thorough": 500000}, "last_checked": {"quick": 300, "thorough": 8000}}
+FLOOR = {"pulls_checked": {"quick": 20000, "thorough": 500000}, "last_checked": {"quick": 300, "thorough": 8000},
+         "intermediate_stops_probed": {"quick": 5000, "thorough": 100000}}
 WALL = {"quick": 1500, "thorough": 5 * 3600}
 
 
 class InBox(Monitor):
+    """also probes intermediate stopping times: after a round, a deep copy of the algorithm object is asked for its
+    recommendation (the run itself is not disturbed; NumPy's global state is saved and restored around the probe), so
+    `get_last_point after the loop` is exercised for many T <= n per run, not just the final one"""
+
+    def start(self, ctx):
+        self.prng = np.random.default_rng([ctx.case.get("np_seed", 0), 99])
+        self.pstop = ctx.case.get("probe_stops", 0.0)
+        self.seen = set()
+
+    def on_reward(self, ctx, t, r):
+        if not self.pstop or self.prng.random() >= self.pstop:
+            return
+        state = np.random.get_state()
+        try:
+            clone = copy.deepcopy(ctx.algo)
+        except RecursionError:
+            self.obs["stop_probes_skipped_deep_tree"] += 1
+            return
+        finally:
+            np.random.set_state(state)
+        try:
+            q = clone.get_last_point()
+        except C.StepBudgetExceeded:
+            raise
+        except Exception as e:
+            ci = crash_info(e, "last", ctx.round)
+            key = (ci["exc"], ci["site"])
+            if key not in self.seen:  # one report per mechanism and run; the run itself continues
+                self.seen.add(key)
+                self.v("raises", exc=ci["exc"], site=ci["site"], phase="last", msg=ci["msg"], chain=ci["chain"],
+                       stop_T=ctx.round)
+            self.obs["intermediate_stops_raising"] += 1
+            return
+        finally:
+            np.random.set_state(state)
+        self.obs["intermediate_stops_probed"] += 1
+        why = C.inbox_problem(q, ctx.box)
+        if why:
+            self.v("last_not_in_box", why=why, point=repr(q)[:120], phase="last", stop_T=ctx.round)
+
     def on_pull(self, ctx, t, p):
         self.obs["pulls_checked"] += 1
         why = C.inbox_problem(p, ctx.box)
@@ -59,6 +104,10 @@ def gen_cases(rng, tier, count=None):
             cases.append(gen.algo_case(rng, algo, tier, part=part, dim=dim, n=n or None, fams=fams, inject_p=0.3))
             continue
         cases.append(gen.algo_case(rng, algo, tier, part=part, dim=dim, fams=fams, inject_p=0.3))
+    for c in cases:
+        if c["n"] <= 333 and rng.random() < 0.5:
+            c["probe_stops"] = float(rng.choice([0.1, 0.3, 1.0]))
+            c["_cost"] *= 3
     return cases
 
 
